@@ -67,6 +67,10 @@ def builder(seed, n, defaults):
         if kind == "double":
             at = 0.0
             prob = dict(prob); prob["y0"] = [v if abs(v) > 0.05 else 0.5 for v in prob["y0"]]
+        if kind != "double" and len(prob["y0"]) > 1 and rng.random() < 0.5:
+            # per-component tolerances with different entries (the scale rebuilt after ModifiedSolution must use all of them)
+            rt = [rt * rng.choice([0.01, 0.1, 1.0, 10.0]) for _ in prob["y0"]]
+            at = [at * rng.choice([0.01, 0.1, 1.0, 10.0]) for _ in prob["y0"]]
         use_jac = method in ("RADAU", "BDF") and bool(prob.get("jac"))
         common_kw = dict(method=method, prob=prob, x0=kw["x0"], xend=kw["xend"], rtol=rt, atol=at, defaults=defaults,
                          use_jac=use_jac, full=True)
@@ -99,6 +103,8 @@ def builder(seed, n, defaults):
         prob = gen.fam_bump(rng)
         rt, at = rng.choice([(1e-6, 1e-9), (1e-5, 1e-8), (1e-7, 1e-10), (1e-4, 1e-7)])
         xe = prob["span"] * (1 if rng.random() < 0.7 else -1)
+        if (j // 4) % 2 == 1:
+            rt, at = [rt, rt * 0.1], [at * 10.0, at]
         ckw = dict(method=method, prob=prob, x0=0.0, xend=xe, rtol=rt, atol=at, defaults=defaults, use_jac=False, full=True)
         for name, script in (("base", []), ("noop", [(i, "N", 0.0) for i in range(0, 3000)])):
             cid = "r%d_%s" % (j, name)
